@@ -367,6 +367,9 @@ theorem handlePUBACK_inv {w : World} (h : WInv w) (p : Nat) (ppr : Proto) (hpp :
   | none => exact ⟨rfl, h⟩
   | some rid =>
     simp only
+    by_cases hq1 : (w.req rid).qos = 1
+    case neg => simp only [ne_eq, hq1, not_false_eq_true, ↓reduceIte]; exact ⟨rfl, h⟩
+    simp only [ne_eq, hq1, not_true_eq_false, ↓reduceIte]
     have he := Ents.lookup_some hl
     have hq : (⟨ppr.addr, .pub, m, rid⟩ : Ent).box ≠ .queue := by simp
     have hal := h.connected p ppr hpp (by simp) hlive hconn _ he rfl hq
@@ -490,6 +493,9 @@ theorem handlePUBREC_inv {w : World} (h : WInv w) (p : Nat) (ppr : Proto) (hpp :
   | none => exact ⟨rfl, h⟩
   | some rid =>
     simp only
+    by_cases hq2 : (w.req rid).qos = 2
+    case neg => simp only [ne_eq, hq2, not_false_eq_true, ↓reduceIte]; exact ⟨rfl, h⟩
+    simp only [ne_eq, hq2, not_true_eq_false, ↓reduceIte]
     have he := Ents.lookup_some hl
     have hq : (⟨ppr.addr, .pub, m, rid⟩ : Ent).box ≠ .queue := by simp
     obtain ⟨t, d, p0, ht, hpe, hd, hnf, hkey⟩ := window_entry_facts h p ppr hpp hlive hconn he rfl hq
